@@ -70,6 +70,21 @@ def cases(ctx):
                         "src": f"*={a:#08x}\n.db 0xAA, 0xBB\n@={b:#08x}\nrun:\n.db {data}\nrun_end:\n*=run_end\n.db 0xCC, 0xDD\n"})
             out.append({"kind": "org-to-label", "rom": rom, "trace": True, "spec": {"t": "blocks", "high": rom == "high"},
                         "src": f"*={a:#08x}\nfirst:\n.db {data}\nsecond:\n*={b:#08x}\n.db 1\n*=second\n.db 2\n*=first\n.db 3\n"})
+    # an included patch in the middle of a run: its records go out where the directive stands, the run stays one block
+    def ips(records):
+        out = b"PATCH"
+        for off, data in records:
+            out += off.to_bytes(3, "big") + len(data).to_bytes(2, "big") + bytes(data)
+        return list(out + b"EOF")
+    for rom, org in (("low", 0x018000), ("high", 0x410000)):
+        for recs, delta in (([(0x20000, b"\xde\xad\xbe\xef")], 0), ([(0x300, b"ab"), (0x500, b"cdef")], -0x200),
+                            ([(0x8002, b"\x99")], 0), ([], 0)):
+            for body in (".db 0xA1\nlda.w 0x1234\nmid:\n.db 0xA2\n{INC}after:\n.db 0xA3\nrts\nlast:\n.dl mid\n.dl after\n",
+                         "{INC}.db 1, 2\n", ".db 1, 2\n{INC}", ".db 1\n{INC}*=ORG2\n.db 2\n{INC}.db 3\n",
+                         ".db 1\n@=0x7e0000\n.db 2\n{INC}.db 3\n"):
+                src = f"*={org:#08x}\n" + body.replace("{INC}", f".include_ips 'other.ips', {delta}\n").replace("ORG2", f"{org + 0x10000:#08x}")
+                out.append({"kind": "ips-in-run", "rom": rom, "trace": True, "files": {"other.ips": ips(recs)},
+                            "spec": {"t": "blocks", "high": rom == "high"}, "src": src})
     # bank crossing with contiguous file offsets
     for rom, org in (("low", 0x00FFFD), ("low", 0x80FFFE), ("low", 0x6EFFFF), ("high", 0x40FFFC), ("high", 0xC1FFFF)):
         out.append({"kind": "bank-cross", "rom": rom, "trace": True, "spec": {"t": "blocks", "high": rom == "high"},
